@@ -28,7 +28,7 @@ PROP_ASSUMPTIONS = {
     "C13": ["A2", "A3", "A8", "A9"],
     "C12": ["A1", "A2", "A3", "A9"],
     "C16": ["A2", "A3", "A5", "A9"],
-    "C15": ["A2", "A3", "A8", "A9"],
+    "C15": ["A1", "A2", "A3", "A8", "A9"],
 }
 
 
